@@ -340,7 +340,23 @@ class SInt(Sym):
     __rand__ = __and__
 
     def __or__(self, o):
-        raise Unsupported("| on symbolic int (use ctx().bit_or_disjoint)")
+        """x | y on non-negative ints whose bit fields are provably disjoint (one a multiple of 2^p, the
+        other below 2^p): then x | y == x + y. Anything else is unsupported."""
+        c = ctx()
+        x, y = self.t, _i(o)
+        if isinstance(o, int) and o == 0:
+            return self
+        for p in list(range(1, 33)) + [40, 48, 56]:
+            P = 1 << p
+            for lo, hi in ((x, y), (y, x)):
+                if z3.is_int_value(hi) and hi.as_long() % P != 0:
+                    continue
+                if z3.is_int_value(lo) and not (0 <= lo.as_long() < P):
+                    continue
+                if not c._feasible(z3.Not(z3.And(lo >= 0, lo < P, hi >= 0, hi % P == 0))):
+                    c.note("x | y computed as x + y where the operands' bit fields are proved disjoint")
+                    return SInt(x + y)
+        raise Unsupported("| on symbolic ints whose bit fields are not provably disjoint")
 
     __ror__ = __or__
 
